@@ -53,8 +53,11 @@ type Enc struct {
 	structs  map[string]*Sort
 	uses     map[string]bool // assumptions actually used (extern contracts, axioms, …)
 	usedSpec map[string]bool
+	reveal   map[string]bool // opaque spec functions whose definition is visible in this encoding
+	noLemmas bool
 	axioms   []string
 	axDone   map[string]bool
+	usesLemma []string
 	pkg      *types.Package
 }
 
@@ -62,7 +65,7 @@ func newEnc(w *World, pkg *types.Package) *Enc {
 	return &Enc{
 		w: w, declSeen: map[string]bool{}, lits: map[string]string{},
 		typeTags: map[string]int{}, structs: map[string]*Sort{}, uses: map[string]bool{}, pkg: pkg,
-		usedSpec: map[string]bool{}, axDone: map[string]bool{},
+		usedSpec: map[string]bool{}, axDone: map[string]bool{}, reveal: map[string]bool{},
 	}
 }
 
@@ -565,18 +568,45 @@ func (e *Enc) finalize() error {
 		}()
 		for changed := true; changed; {
 			changed = false
+			// definitions of revealed opaque functions
+			for _, name := range sortedKeys(e.usedSpec) {
+				sf := e.w.specs.Funcs[name]
+				if sf == nil || !sf.Opaque || !e.reveal[name] || e.axDone["reveal:"+name] {
+					continue
+				}
+				e.axDone["reveal:"+name] = true
+				changed = true
+				st := e.newState()
+				x := &Ex{enc: e, w: e.w, pkg: e.pkg, vars: map[string]*T{}, lets: map[string]string{}, cur: st, old: st}
+				var binds, args []string
+				for _, p := range sf.Params {
+					ps, pt := x.typeFromString(p.Type)
+					sym := "d$" + p.Name
+					x.vars[p.Name] = mk(sym, ps).withGo(pt)
+					binds = append(binds, fmt.Sprintf("(%s %s)", sym, ps.SMT()))
+					args = append(args, sym)
+				}
+				rs, _ := x.typeFromString(sf.Result)
+				body := x.tr(parseSpecExpr(sf.Body), rs)
+				appl := sapp("spec$"+name, args...)
+				e.axioms = append(e.axioms, fmt.Sprintf("(assert (forall (%s) (! (= %s %s) :pattern (%s))))", strings.Join(binds, " "), appl, body.S, appl))
+			}
 			for _, ax := range e.w.specs.Axioms {
 				if e.axDone[ax.Name] {
 					continue
 				}
 				mention := false
 				for name := range e.usedSpec {
+					sf := e.w.specs.Funcs[name]
+					if sf == nil || sf.Raw || (sf.Body != "" && !sf.Opaque) {
+						continue
+					}
 					if mentionsIdent(ax.Expr, name) {
 						mention = true
 						break
 					}
 				}
-				if !mention {
+				if !mention || e.noLemmas && ax.Lemma {
 					continue
 				}
 				e.axDone[ax.Name] = true
@@ -585,7 +615,11 @@ func (e *Enc) finalize() error {
 				x := &Ex{enc: e, w: e.w, pkg: e.pkg, vars: map[string]*T{}, lets: map[string]string{}, cur: st, old: st}
 				t := x.Bool(ax.Expr)
 				e.axioms = append(e.axioms, "(assert "+addPatterns(t.S)+")")
-				e.uses["axiom "+ax.Name+": "+ax.Expr] = true
+				if ax.Lemma {
+					e.usesLemma = append(e.usesLemma, ax.Name)
+				} else {
+					e.uses["axiom "+ax.Name+": "+ax.Expr] = true
+				}
 			}
 		}
 	}()
